@@ -118,6 +118,33 @@ var (
 // The argument desc is typically a value in the ColorSpace sub-dictionary of
 // a Resources dictionary.
 func ExtractSpace(c pdf.Cursor, desc pdf.Object, _ bool) (Space, error) {
+	return extractSpace(c, desc, 0)
+}
+
+// maxSpaceNesting bounds how deeply colour spaces may be nested through base
+// and alternate colour spaces.  The deepest valid combination is an uncoloured
+// Pattern space over an Indexed space over a Separation or DeviceN space with
+// its alternate; everything deeper is rejected when the outer space is
+// validated anyway, but only after the whole chain has been decoded.  Without
+// the bound a chain of Separation spaces is decoded to its end from every
+// reference into it, and directly nested arrays recurse once per level,
+// uncounted by the reference depth limit.
+const maxSpaceNesting = 8
+
+// nestedSpace returns the extractor for a base or alternate colour space at
+// the given nesting level.
+func nestedSpace(level int) func(pdf.Cursor, pdf.Object, bool) (Space, error) {
+	return func(c pdf.Cursor, desc pdf.Object, _ bool) (Space, error) {
+		return extractSpace(c, desc, level)
+	}
+}
+
+func extractSpace(c pdf.Cursor, desc pdf.Object, level int) (Space, error) {
+	if level > maxSpaceNesting {
+		return nil, &pdf.MalformedFileError{
+			Err: errors.New("color spaces nested too deeply"),
+		}
+	}
 	d := newDecoder(c, desc)
 
 	var res Space
@@ -136,7 +163,7 @@ func ExtractSpace(c pdf.Cursor, desc pdf.Object, _ bool) (Space, error) {
 		if len(d.args) == 0 {
 			res = spacePatternColored{}
 		} else {
-			base, err := pdf.Decode(c, d.args[0], ExtractSpace)
+			base, err := pdf.Decode(c, d.args[0], nestedSpace(level+1))
 			if err != nil {
 				d.SetError(pdf.Wrap(err, "base color space"))
 			} else if IsPattern(base) {
@@ -200,7 +227,7 @@ func ExtractSpace(c pdf.Cursor, desc pdf.Object, _ bool) (Space, error) {
 			d.MarkAsInvalid()
 			break
 		}
-		base, err := pdf.Decode(c, d.args[0], ExtractSpace)
+		base, err := pdf.Decode(c, d.args[0], nestedSpace(level+1))
 		if err != nil {
 			d.SetError(pdf.Wrap(err, "base color space"))
 			break
@@ -255,7 +282,7 @@ func ExtractSpace(c pdf.Cursor, desc pdf.Object, _ bool) (Space, error) {
 			break
 		}
 
-		alternate, err := pdf.Decode(c, d.args[1], ExtractSpace)
+		alternate, err := pdf.Decode(c, d.args[1], nestedSpace(level+1))
 		if err != nil {
 			d.SetError(pdf.Wrap(err, "alternate color space"))
 			break
@@ -304,7 +331,7 @@ func ExtractSpace(c pdf.Cursor, desc pdf.Object, _ bool) (Space, error) {
 			break
 		}
 
-		alternate, err := pdf.Decode(c, d.args[1], ExtractSpace)
+		alternate, err := pdf.Decode(c, d.args[1], nestedSpace(level+1))
 		if err != nil {
 			d.SetError(pdf.Wrap(err, "alternate color space"))
 			break
